@@ -85,6 +85,28 @@ Proof.
 Qed.
 Print Assumptions all_started_refuted.
 
+(* ... and PROVED outside the class that recognises F7: when all members of a group have the same
+   threads-required ([uniform_b], computable), every complete run -- any completion order --
+   starts every item (group keys unique, as in nextest's map of test groups). *)
+Theorem all_started_outside_known :
+  forall gm grps items ids,
+    NoDup (map fst grps) -> uniform_b items = true -> all_started gm grps items ids.
+Proof. intros gm grps items ids Hnd Hu. exact (all_started_uniform items Hu gm grps ids Hnd). Qed.
+Print Assumptions all_started_outside_known.
+
+(* the witness is inside the known class; a uniform configuration that does use the group queue
+   is outside it *)
+Example C08_example_f7_in_known_class : uniform_b f7_items = false.
+Proof. vm_compute. reflexivity. Qed.
+
+Example C08_example_uniform_queue_used :
+  let items := [mkitem 0 2 (Some 0); mkitem 1 2 (Some 0); mkitem 2 2 None; mkitem 3 2 (Some 0)] in
+  uniform_b items = true /\
+  map it_id (queued_items (fst (fq_run (fq_new 4 [(0, 2)] items) [OpFill]))) = [1] /\
+  unstarted (complete_run 4 [(0, 2)] items [2; 0; 1; 3]) = [] /\
+  running (complete_run 4 [(0, 2)] items [2; 0; 1; 3]) = [].
+Proof. vm_compute. repeat split; reflexivity. Qed.
+
 (* ---- closed examples (non-vacuity) *)
 
 (* a state with two futures in progress, one of them in a group, one item parked in the group
